@@ -166,7 +166,7 @@ NoJob(kind) ==
     CASE kind = "import" -> [phase |-> "none", batch |-> <<>>, idx |-> <<>>, next |-> 0, file |-> "",
                              upd |-> {}, res |-> {}, add |-> {}, used |-> 0, n |-> 0]
       [] kind = "tag"    -> [phase |-> "none", tag |-> "", def |-> Def("", 0, <<>>, ""), U0 |-> {}, M0 |-> {},
-                             idx |-> <<>>, td |-> <<>>, M1 |-> {}]
+                             idx |-> <<>>, td |-> <<>>, M1 |-> {}, stale |-> FALSE]
       [] kind = "merge"  -> [phase |-> "none", off |-> 0, idx |-> <<>>, file |-> ""]
       [] kind = "conv"   -> [phase |-> "none", ids |-> <<>>, idx |-> <<>>]
 
@@ -175,6 +175,10 @@ Eligible(tg) == {t \in DOMAIN tg : /\ tg[t].U # {}
                                    /\ \A r \in Refs(tg[t].def) : tg[r].U = {}}
 TagPicks(tg, fl) == IF fl.tag \/ Eligible(tg) = {} THEN {""} ELSE Eligible(tg)
 \* state bundle threaded through the start...IfNeeded calls of one closure
+\* Every tag carries the number of its definition (a new one for every new tag and every query change); the result of a
+\* tagging job is only used for the definition it evaluated.  Abstractly: the job in flight for a name goes stale when a
+\* tag of that name is added, deleted, renamed away or gets another query (the text may be the same again later).
+Stale(jb, name) == IF jb.tag.phase # "none" /\ jb.tag.tag = name THEN [jb EXCEPT !.tag.stale = TRUE] ELSE jb
 Bundle(tg, fl, jb, us, du, tc) == [tags |-> tg, flags |-> fl, jobs |-> jb, use |-> us, during |-> du, toConv |-> tc]
 
 StartTag(b, idx, pick) ==
@@ -184,7 +188,7 @@ StartTag(b, idx, pick) ==
                    !.use = LockSeq(b.use, idx),
                    !.jobs.tag = [phase |-> "start", tag |-> pick, def |-> b.tags[pick].def,
                                  U0 |-> b.tags[pick].U, M0 |-> b.tags[pick].M, idx |-> idx,
-                                 td |-> [r \in Refs(b.tags[pick].def) |-> b.tags[r].M], M1 |-> {}]]
+                                 td |-> [r \in Refs(b.tags[pick].def) |-> b.tags[r].M], M1 |-> {}, stale |-> FALSE]]
 
 \* startMergeJobIfNeeded (manager.go:689-710)
 CountOf(F, f) == Cardinality(ContentOf(F, f))
@@ -341,7 +345,7 @@ TagCompute ==
 \* the closure posted by updateTagJob (manager.go:815-838)
 TagDone(pick) ==
     LET j == jobs.tag
-        same == j.tag \in DOMAIN tags /\ tags[j.tag].def = j.def
+        same == ~j.stale /\ j.tag \in DOMAIN tags /\ tags[j.tag].def = j.def
         tg1 == IF same THEN [tags EXCEPT ![j.tag] = [@ EXCEPT !.M = j.M1, !.U = {}]] ELSE tags
         tc1 == IF same THEN [c \in DOMAIN toConv |-> IF c \in tags[j.tag].convs THEN toConv[c] \cup j.M1 ELSE toConv[c]]
                ELSE toConv
@@ -473,7 +477,7 @@ AddTag(name, d, col, pick) ==
     /\ LET mark == IsMarkName(name)
            nt == IF mark THEN NewTag(d, MarkIDs(d, nextID), {}, col) ELSE NewTag(d, {}, allS, col)
            tg1 == AddRefBy(With(tags, name, nt), name, Refs(d))
-           b0 == Bundle(tg1, flags, jobs, use, during, toConv)
+           b0 == Bundle(tg1, flags, Stale(jobs, name), use, during, toConv)
            b1 == IF mark THEN b0 ELSE StartTag(b0, indexes, pick)
        IN /\ pick \in (IF mark THEN {""} ELSE TagPicks(With(tags, name, nt), flags))
           /\ Install(b1)
@@ -498,7 +502,7 @@ DelTag(name, pick) ==
     /\ DelTagOK(name)
     /\ LET d == Detach(tags, toConv, cache, name, tags[name].convs)
            drop == Dropped(tags, name, tags[name].convs)
-           b0 == Bundle(tags, flags, jobs, use, during, d[1])
+           b0 == Bundle(tags, flags, Stale(jobs, name), use, during, d[1])
            b1 == IF drop THEN AfterDrop(b0, indexes, pick) ELSE b0
        IN /\ pick \in (IF drop THEN TagPicks(DropTags(tags), flags) ELSE {""})
           /\ Install([b1 EXCEPT !.tags = DelRefBy(Without(b1.tags, name), name, Refs(tags[name].def))])
@@ -570,7 +574,7 @@ UpdQuery(name, d, pick) ==
            nt == [old EXCEPT !.def = d, !.U = allS, !.M = {}]
            tg1 == AddRefBy(DelRefBy([tags EXCEPT ![name] = nt], name, Refs(old.def) \ Refs(d)), name, Refs(d) \ Refs(old.def))
            tg2 == Inherit(tg1, allS)
-           b0 == Bundle(tg2, flags, jobs, use, during, toConv)
+           b0 == Bundle(tg2, flags, Stale(jobs, name), use, during, toConv)
            b1 == StartTag(b0, indexes, pick)
            b2 == StartConv(b1, indexes)
        IN /\ pick \in TagPicks(tg2, flags)
@@ -640,7 +644,8 @@ UpdName(name, new) ==
     /\ UpdNameOK(name, new)
     /\ LET moved == [t \in (DOMAIN tags \ {name}) \cup {new} |-> IF t = new THEN tags[name] ELSE tags[t]]
        IN tags' = AddRefBy(DelRefBy(moved, name, Refs(tags[name].def)), new, Refs(tags[name].def))
-    /\ UNCHANGED <<settings, known, queue, nextID, allS, files, indexes, use, flags, during, unmerge, jobs, views, toConv, cache>>
+    /\ jobs' = Stale(jobs, name)
+    /\ UNCHANGED <<settings, known, queue, nextID, allS, files, indexes, use, flags, during, unmerge, views, toConv, cache>>
 
 \* a rejected call: nothing changes (what the property demands; the harness reports what the code did)
 Rejected == UNCHANGED vars
